@@ -33,7 +33,7 @@ RULE = (
     "round trip through a file after a restart or one minimal-format round trip"
 )
 LEVEL_TEXT = (
-    "Seeded stateful histories through the storage seam with process restarts (only files survive), randomised format threshold, ZANJ layout knobs and clock; every loaded dataset is compared value by value (canonicalised arrays, config fields, collected-metadata counts) with a plain-data model recorded before the operation. Inputs include hand-assembled datasets (stale counts, stripped or collected metadata, shared and re-ordered maze objects of reloaded datasets), grids wider than 128 cells kept cheap, endpoint lists long enough to be stored as external archive members, collections built with shared and with copied member configurations, collections with an empty member under thresholds on either side of the member and collection sizes (dealt, one history in fifteen), every format written through the disk seam, saved forms loaded twice, the saved form of an equal donor dataset edited everywhere (entries, items, array contents) before the round trip; one interpreter slot in three runs under python -O. Sampling, not proof.",
+    "Seeded stateful histories through the storage seam with process restarts (only files survive), randomised format threshold, ZANJ layout knobs and clock; every loaded dataset is compared value by value (canonicalised arrays, config fields, collected-metadata counts) with a plain-data model recorded before the operation. Inputs include hand-assembled datasets (stale counts, stripped or collected metadata, shared and re-ordered maze objects of reloaded datasets), grids wider than 128 cells kept cheap, endpoint lists long enough to be stored as external archive members, collections built with shared and with copied member configurations, collections with an empty member under thresholds on either side of the member and collection sizes (dealt, one history in fifteen), every format written through the disk seam, save targets spelled without the extension / with dots in the bare name / as pathlib.Path, saved forms loaded twice, the saved form of an equal donor dataset edited everywhere (entries, items, array contents) before the round trip; one interpreter slot in three runs under python -O. Sampling, not proof.",
     "Trusted: stdlib zipfile/NumPy; the storage seam is fault-free here (faults are C11's business).",
 )
 
@@ -128,6 +128,21 @@ def compare(loaded: dict, after: dict, before: dict, what: str):
 # ------------------------------------------------------------------------------------------------
 # one simulated process lifetime
 # ------------------------------------------------------------------------------------------------
+def disk_name(spelled: str) -> str:
+    "the file a spelled save target lands in: the archive writer appends its extension unless the name already ends with it"
+    n = spelled[5:] if spelled.startswith("path:") else spelled
+    return n if n.endswith(".zanj") else n + ".zanj"
+
+
+def path_arg(base_dir: str, spelled: str):
+    "how the caller spells the target: str or pathlib.Path, with or without the extension, with dots in the bare name"
+    import pathlib
+
+    if spelled.startswith("path:"):
+        return pathlib.Path(base_dir) / spelled[5:]
+    return os.path.join(base_dir, spelled)
+
+
 def st_segment(ops, base_dir, clock, files_model):
     """executes ops; returns {"violation": [oracle,msg]|None, "files": updated model, "events": [...], "stats": {}}"""
     from maze_dataset import MazeDataset, MazeDatasetCollection, MazeDatasetCollectionConfig
@@ -306,7 +321,9 @@ def st_segment(ops, base_dir, clock, files_model):
                     elif skip_excluded(ds, how):
                         continue
                     before = full_model(ds)
-                    p = os.path.join(base_dir, op[2])
+                    p = path_arg(base_dir, op[2])
+                    if op[2] != disk_name(op[2]):
+                        bump("probe_save_target_spelled_without_extension_or_as_Path")
                     z = ZANJ(external_array_threshold=op[3].get("external_array_threshold", 256), compress=op[3].get("compress", True))
                     what = f"save({op[2]}, format={how}) of {'collection' if is_coll else 'dataset'} len={len(ds)}"
                     try:
@@ -319,15 +336,15 @@ def st_segment(ops, base_dir, clock, files_model):
                         key = _finding_key(ds, e)
                         return {"violation": ["C05.roundtrip-raised", f"{what} raised {type(e).__name__}: {str(e)[:200]}", key], "files": files, "events": events, "stats": stats}
                     after = full_model(ds)
-                    if op[2] in files:
+                    if disk_name(op[2]) in files:
                         bump("probe_overwrite_existing_path")
-                    files[op[2]] = {"after": after, "before": before}
+                    files[disk_name(op[2])] = {"after": after, "before": before}
                     events.append(["save", op[2], len(ds), selected_minimal(ds) if not is_coll else None])
                 elif name == "read":
-                    ent = files.get(op[1])
+                    ent = files.get(disk_name(op[1]))
                     if ent is None:
                         continue
-                    p = os.path.join(base_dir, op[1])
+                    p = path_arg(base_dir, ("path:" if op[1].startswith("path:") else "") + disk_name(op[1]))
                     what = f"{op[2]}({op[1]})"
                     try:
                         if op[2] == "ZANJ.read":
@@ -368,6 +385,10 @@ def _finding_key(ds, e):
 def gen_history(rng: random.Random, tier: str) -> dict:
     ops: list = []
     paths = ["a.zanj", "b.zanj", "c.zanj"]
+    if rng.random() < 0.35:
+        # the same few files, spelled the ways callers spell them: without the extension, with dots in the bare name (a
+        # sibling of another target), as pathlib.Path
+        paths = ["a.zanj", "a", "a.v2", "path:b.zanj", "path:b.v2", "run-p0.5", "c.zanj"]
     slots: list = []
     n_ops = rng.randint(45, 70) if rng.random() < 0.03 else rng.randint(6, 14)  # a few long histories
     thresholds = [None, 0, 1, 2, 3, 5, 8, 100]
@@ -463,7 +484,7 @@ def gen_history(rng: random.Random, tier: str) -> dict:
             slots = []
     # always end with: restart, read every path both ways
     ops.append(["restart"])
-    for p in paths:
+    for p in sorted({disk_name(x) for x in paths}):
         ops.append(["read", p, "MazeDataset.read", True])
         if rng.random() < 0.5:
             ops.append(["read", p, "ZANJ.read", True])
